@@ -6,7 +6,7 @@ func init() {
 
 // C02: compositions of instrumented control-flow constructs under all truth assignments.
 func checkC02(c *Check) {
-	c.rule = "MC_Flow composes the 31 instrumented constructs of EFSyntax (if / else if / else, while, for, foreach over array/string/hash/range/variable with and without index, switch by literal/multi-value/expression/regexp/default, ternary, early return) nested and in sequence (quick: all pairs + 1/11 of triples; thorough: all triples); a switch-value family (5 programs switching on a host function which counts its calls: the switch has ONE value); a tail family: 7 block constructs whose last statement is one of 7 block constructs with nothing after them (the script runs off its end); MC_Opt supplies the same compositions with 12 constant conditions in place of the fields; each program is run under every truth assignment of its condition fields, in sequence on one evaluator; result, t(n) call sequence and variables are compared with EFSemantics; non-trivial = expectation is a value; distinct = distinct script text; in addition every 12th (thorough: 16th of many more) evaluator, up to 0.8 (thorough: 3) million instructions, is recorded instruction by instruction and the trace validated against Trace_VM (jump targets, frame discipline, operand-stack heights and computed values at every step); the repository's own test suite (root package and vm) is run in a scratch copy built with the verif tag and a recorder, and every machine run it performs - and every example script of the repository on its example document - is validated against Trace_VM in the same way"
+	c.rule = "MC_Flow composes the 31 instrumented constructs of EFSyntax (if / else if / else, while, for, foreach over array/string/hash/range/variable with and without index, switch by literal/multi-value/expression/regexp/default, ternary, early return) nested and in sequence (quick: all pairs + 1/11 of triples; thorough: all triples); a regexp-case family (3 programs x 10 values which are not strings: either the printed form is tested or no regexp case matches, one of the two everywhere, never an error); a switch-value family (5 programs switching on a host function which counts its calls: the switch has ONE value); a tail family: 7 block constructs whose last statement is one of 7 block constructs with nothing after them (the script runs off its end); MC_Opt supplies the same compositions with 12 constant conditions in place of the fields; each program is run under every truth assignment of its condition fields, in sequence on one evaluator; result, t(n) call sequence and variables are compared with EFSemantics; non-trivial = expectation is a value; distinct = distinct script text; in addition every 12th (thorough: 16th of many more) evaluator, up to 0.8 (thorough: 3) million instructions, is recorded instruction by instruction and the trace validated against Trace_VM (jump targets, frame discipline, operand-stack heights and computed values at every step); the repository's own test suite (root package and vm) is run in a scratch copy built with the verif tag and a recorder, and every machine run it performs - and every example script of the repository on its example document - is validated against Trace_VM in the same way"
 	c.assumptions = []string{
 		"host function t() returns the void value; conditions are boolean object fields",
 		"switch case matching between an integer and an equal float, ranges a..b with a>b are unconstrained and not generated",
@@ -16,9 +16,15 @@ func checkC02(c *Check) {
 		every, max = 16, 3000000
 	}
 	tc := &traceCollector{every: every, max: max}
+	rc := &reCaseTracker{}
 	runRows(c, "MC_Flow", stdCfg(c.Tier, "Specified", "Bounded"), func(row *Row) {
+		if row.K == "recase" {
+			rc.replay(c, row)
+			return
+		}
 		replayProgRow(c, row, progOpts{collector: tc})
 	})
+	rc.finish(c)
 	// the same constructs with constant conditions (literals, folded comparisons): what the optimizer rewrites
 	runRows(c, "MC_Opt", stdCfg(c.Tier, "Specified"), func(row *Row) {
 		replayProgRow(c, row, progOpts{collector: tc})
